@@ -42,7 +42,7 @@ func c01Token(c *mon.Ctx, r *mon.Rand) {
 		rec = pr.Recorder
 		opts.Reporter = pr
 	}
-	root, _ := tally.VerifNewRootScope(opts, 0, 1)
+	root, _ := vNewRoot(opts, 0, 1)
 	var sc tally.Scope = root
 	prefix := ""
 	if r.Bool() {
@@ -210,7 +210,7 @@ func c01Stress(c *mon.Ctx, r *mon.Rand) {
 		opts.Reporter = pr
 	}
 	interval := time.Duration(r.Range(50, 200)) * time.Microsecond
-	shards := uint(r.Range(1, 4))
+	shards := uint(r.Range(0, 4)) // 0 = the public constructor (GOMAXPROCS shards)
 	nScopes := r.Range(1, 30)
 	perScope := r.Range(5, 40)
 	nWorkers := r.Range(2, 6)
@@ -227,7 +227,7 @@ func c01Stress(c *mon.Ctx, r *mon.Rand) {
 	defer stopWatch()
 	inj.Install()
 	defer inj.Uninstall()
-	root, closer := tally.VerifNewRootScope(opts, interval, shards)
+	root, closer := vNewRoot(opts, interval, shards)
 
 	type ctr struct {
 		c    tally.Counter
